@@ -185,6 +185,12 @@ impl<'a> Analysis<'a> {
                 AppEv::DataMismatch { stream, .. } if *stream >= self.streams.len() => {
                     // a stream opened by the raw peer outside the case description: its content is not modelled
                 }
+                AppEv::DataMismatch { stream, end, offset, got, want } if *offset == usize::MAX => {
+                    return Err((
+                        "c02-reader-api-contract".into(),
+                        format!("step {st}: stream {stream} end {end}: `poll_for_push` returned {got} although `buf()` then held {want} bytes (documented: the number of bytes read into the buffer, 0 exactly at end-of-stream)"),
+                    ));
+                }
                 AppEv::DataMismatch { stream, end, offset, got, want } => {
                     return Err((
                         "c02-data-mismatch".into(),
